@@ -350,6 +350,9 @@ func runCrash(p *Plan, tape *simrt.Tape, opt RunOpt) *RunOut {
 		if v != nil && p.Prop == "C07" && !strings.Contains(v.Class, "fsck") {
 			v = nil
 		}
+		if v != nil && p.Prop == "C13" && !strings.Contains(v.Class, "ledger/") {
+			v = nil
+		}
 		out.Viol = v
 		return out
 	}
@@ -385,6 +388,33 @@ func runCrash(p *Plan, tape *simrt.Tape, opt RunOpt) *RunOut {
 				jobs = append(jobs, job{c: c, torn: k})
 			}
 		}
+	}
+	if p.x("c13crash", 0) == 1 && !all {
+		// crash class of C13: every crash point at an operation on the freelist
+		// file or its hand-over file (and the one right after it), plus a few others
+		var pick, rest []job
+		for i, j := range jobs {
+			near := strings.Contains(j.c.rec.Path, ".free") || strings.Contains(j.c.rec.Path2, ".free")
+			if !near && i > 0 {
+				pr := jobs[i-1].c.rec
+				near = strings.Contains(pr.Path, ".free") || strings.Contains(pr.Path2, ".free")
+			}
+			if near && len(pick) < 40 {
+				pick = append(pick, j)
+			} else {
+				rest = append(rest, j)
+			}
+		}
+		for i := len(rest) - 1; i > 0; i-- {
+			k := r.Intn(i + 1)
+			rest[i], rest[k] = rest[k], rest[i]
+		}
+		if len(rest) > 6 {
+			rest = rest[:6]
+		}
+		jobs = append(pick, rest...)
+		out.Probes["freelist-crash-points"] += len(pick)
+		sample = len(jobs)
 	}
 	if !all && len(jobs) > sample {
 		// biased sample: prefer crash points inside flush/GC/close/open (ops that
@@ -497,6 +527,10 @@ func runCrash(p *Plan, tape *simrt.Tape, opt RunOpt) *RunOut {
 		where := fmt.Sprintf("crash before %s %s (mutating op %d, during plan op %d, torn=%d)", j.c.rec.Kind, j.c.rec.Path, j.c.mut, j.c.opIdx, j.torn)
 		v := rc.recoverSearch(img, j.c.adm, nested, r, where)
 		if v != nil && p.Prop == "C07" && !strings.Contains(v.Class, "fsck") {
+			out.Probes["other-oracle-failed"]++
+			v = nil
+		}
+		if v != nil && p.Prop == "C13" && !strings.Contains(v.Class, "ledger/") {
 			out.Probes["other-oracle-failed"]++
 			v = nil
 		}
@@ -646,6 +680,10 @@ func (rc *recoverer) recover(img *simos.Image, adm *Adm, nestedAt int, where str
 			}
 		}
 		d.recoveredKeyFix()
+		if p.x("c13crash", 0) == 1 {
+			rc.c13FollowUp(d, img, where)
+			return
+		}
 		rc.followUp(d, where)
 	})
 	rc.out.Worlds++
@@ -706,6 +744,25 @@ func (d *Driver) recoveredKeyFix() {
 			}
 		}
 	}
+}
+
+// c13FollowUp: three complete primary GC cycles (an existing hand-over file is
+// reprocessed by the first, the freelist file handed over by the second), then
+// every entry that was durable at the crash must have been applied.
+func (rc *recoverer) c13FollowUp(d *Driver, img *simos.Image, where string) {
+	check := crashEntriesApplied(img, uint64(d.Cfg.PrimaryFile))
+	for i := 0; i < 3; i++ {
+		d.PrimaryGC(&Op{K: "pgc", A: 101})
+		if d.Viol != nil {
+			return
+		}
+	}
+	if k, ok := check(fsOf().Files()); !ok {
+		d.fail("ledger/crash-entry-not-applied", "%s: the freelist (or its hand-over file) durably held an entry for location %d (size %d) when the process died, the record was intact, and after recovery and three complete primary GC cycles the record is still intact and not marked deleted: the entry was lost", where, k.Off, k.Size)
+		return
+	}
+	rc.out.Probes["crash-ledger-check"]++
+	d.CloseStore("final")
 }
 
 // followUp continues the workload on the recovered store: ops, flush, fsck, GC
